@@ -60,23 +60,22 @@ Fixpoint fs_get (k : key) (f : fs) : option str :=
   match f with [] => None | (k', v) :: r => if key_eqb k' k then Some v else fs_get k r end.
 Definition fs_set (k : key) (v : str) (f : fs) : fs := (k, v) :: f.
 
-Record fcall := { f_path : option N; f_id : N; f_ext : N; f_overwrite : bool }.
+(* f_payload: what the server answers if this call issues a request (the server may answer differently at different times) *)
+Record fcall := { f_path : option N; f_id : N; f_ext : N; f_overwrite : bool; f_payload : str }.
 Definition fkey (c : fcall) (p : N) : key := (p, f_id c, f_ext c).
 
-Section Cache.
-Variable server : N -> str.           (* payload the stub server returns for a sequence id *)
 (* result: did it issue a request, what content does the caller get (file content or in-memory text) *)
 Definition fetch (f : fs) (c : fcall) : fs * (bool * str) :=
   match f_path c with
-  | None => (f, (true, server (f_id c)))
+  | None => (f, (true, f_payload c))
   | Some p =>
       let k := fkey c p in
       match fs_get k f with
       | Some content =>
           if (Nat.eqb (length content) 0) || f_overwrite c
-          then (fs_set k (server (f_id c)) f, (true, server (f_id c)))
+          then (fs_set k (f_payload c) f, (true, f_payload c))
           else (f, (false, content))
-      | None => (fs_set k (server (f_id c)) f, (true, server (f_id c)))
+      | None => (fs_set k (f_payload c) f, (true, f_payload c))
       end
   end.
 Fixpoint fetch_all (f : fs) (cs : list fcall) : fs * list (bool * str) :=
@@ -84,7 +83,6 @@ Fixpoint fetch_all (f : fs) (cs : list fcall) : fs * list (bool * str) :=
   | [] => (f, [])
   | c :: r => let '(f1, o) := fetch f c in let '(f2, os) := fetch_all f1 r in (f2, o :: os)
   end.
-End Cache.
 
 (* ---- harness entry points ---- *)
 Definition mk_call (t : Z * Z * Z) : call := let '(g, e, d) := t in {| gap := g; eps := e; dur := d |}.
@@ -93,10 +91,9 @@ Definition run_C19_rate (api_key : bool) (cs : list (Z * Z * Z)) : val :=
   let s := run (limit api_key) window calls in
   VL [VB (forallb call_okb calls); VL [VZs (rev (hist s)); VZs (rev (slept s))]].
 
-Definition mk_fcall (t : option N * N * N * bool) : fcall :=
-  let '(p, i, e, o) := t in {| f_path := p; f_id := i; f_ext := e; f_overwrite := o |}.
-Definition run_C19_cache (payloads : list str) (f0 : list (N * N * N * str)) (cs : list (option N * N * N * bool)) : val :=
-  let server := fun i => nth (N.to_nat i) payloads [] in
+Definition mk_fcall (t : option N * N * N * bool * str) : fcall :=
+  let '(p, i, e, o, pl) := t in {| f_path := p; f_id := i; f_ext := e; f_overwrite := o; f_payload := pl |}.
+Definition run_C19_cache (f0 : list (N * N * N * str)) (cs : list (option N * N * N * bool * str)) : val :=
   let f := map (fun '(p, i, e, v) => ((p, i, e), v)) f0 in
-  let '(_, os) := fetch_all server f (map mk_fcall cs) in
+  let '(_, os) := fetch_all f (map mk_fcall cs) in
   VL [VB true; VL (map (fun '(r, c) => VL [VB r; VS c]) os)].
